@@ -31,7 +31,8 @@ def run_case(case, chooser):
     # data_ports may be any iterable: a list, or a one-shot generator
     ports_arg = (p for p in list(pool)) if case.get("ports_as") == "generator" else list(pool)
     rig = Rig(chooser=chooser, n_sessions=n, tree={"f": b"abc"}, host=host,
-              server_kwargs={"data_ports": ports_arg, "wait_future_timeout": 1})
+              server_kwargs={"data_ports": ports_arg, "wait_future_timeout": 1,
+                             **({"socket_timeout": case["socket_timeout"]} if case.get("socket_timeout") else {})})
     try:
         w = rig.world
         chooser.active = False
@@ -115,7 +116,7 @@ def run_case(case, chooser):
             for i, s in enumerate(rig.sessions):
                 if s.ctl is not None:
                     s.peer.vanish()
-            w.settle(0)
+            w.settle(case.get("settle", 0))
             for p in ledger.pool_invariant(w, rig.server, pool):
                 problems.append({"after": "all-gone", **p})
             pl = ledger.pool_ports(rig.server)
@@ -287,6 +288,16 @@ def build_items(tier):
                 b = 1 if name.endswith("race") else 0
                 items.append(("plan", {"name": name, "pool": ports, "n": n, "events": events, "plan": plan},
                               b, kinds_q, 3000))
+    # a listener start-up that takes 5 s (slow resolver, stalled loop), without and with a socket_timeout shorter
+    # than that; the session may die of it, the port may not get lost or doubled
+    for psize in (1, 2):
+        ports = PORTS[:psize]
+        for st in (None, 2):
+            for slow_ports in ([ports[0]], ports):
+                plan = {str(p): ["slow:5"] + (["slow:5"] if st else []) for p in slow_ports}
+                for name, n, events in fault_scripts + [("plan-pasv-wait-pasv", 1, [(0, "PASV"), (0, "@wait 6"), (0, "EPSV"), (0, "QUIT")])]:
+                    items.append(("plan", {"name": name + "-slow", "pool": ports, "n": n, "events": events, "plan": plan,
+                                           "socket_timeout": st, "settle": 20}, 1 if name.endswith("race") else 0, kinds_q, 3000))
     return items
 
 
@@ -300,7 +311,7 @@ def run(tier, seed, t0):
     bounds = {"pools": [0, 1, 2, 3], "sessions": "1..3", "control_connection": ["IPv4", "IPv6 (::1)"],
               "life_cycle": "close() after 6 short histories, then start() again and probe the whole pool; data_ports as list / generator", "sequence_depth": 3 if tier == "quick" else 5,
               "deviation_bound_races": 1 if tier == "quick" else 3,
-              "bind_plans": "3^(2*|pool|) for |pool| in {1,2}", "cases": len(items)}
+              "bind_plans": "3^(2*|pool|) for |pool| in {1,2}", "slow_start_up": "listener start-up of 5 virtual seconds, socket_timeout none / 2 s", "cases": len(items)}
     return report.finish(
         PID, tier, seed, "model_checking", part, t0,
         rule="each case = (pool, sessions, event script, bind plan) executed on the real aioftp.Server inside SimLoop; "
